@@ -12,7 +12,7 @@ import (
 func init() {
 	register(&Check{
 		ID: "C17", Level: "exploration", QuickSecs: 150, ThoroughSecs: 1200,
-		Rule:        "grammars over {., [^a], [a\\uFFFD], \"\\uFFFD\", 'a', \"é\"} x {*, !, ?} x seq/choice up to N nodes (quick 4, thorough 5); ALL inputs up to length L (quick 3, thorough 4) over the bytes {a, C3, A9, E2, 82, FF, C0, ED, A0, 80} (valid 2-byte sequence, truncated 3-byte sequence, overlong lead, surrogate lead, stray continuation); AllowInvalidUTF8 on/off; plus a literal join family (every ordered pair of 10 literals holding whole or partial multi-byte sequences, adjacent or separated by an inlined rule, generated with -optimize-grammar, AllowInvalidUTF8, inputs over 7 bytes up to 4: match and matched bytes against the bytewise reference); plus left-recursive rules E <- E tail / 'a' followed by .* (generated with -support-left-recursion, with and without -optimize-parser) where the invalid byte is first met inside a discarded growth iteration. An independent RFC 3629 decoder gives (rune,width) per offset; the reference matches over those and logs every offset advanced onto. Checked: value/text are the original bytes and offsets count bytes (exact value comparison), with the option off the set of positions carrying an 'invalid encoding' error equals the set of invalid bytes advanced onto, with it on there is none. Non-trivial = the parser advanced onto at least one invalid byte. Plus the cross family (cross.go, 16 flag sets, 14 inputs with invalid bytes) and call histories (every ordered pair of calls over 5 inputs x {default, AllowInvalidUTF8, the option given twice, the option preceded by its opposite, ParseReader}: the second call returns what it returns alone).",
+		Rule:        "grammars over {., [^a], [a\\uFFFD], \"\\uFFFD\", 'a', \"é\"} x {*, !, ?} x seq/choice up to N nodes (quick 4, thorough 5); ALL inputs up to length L (quick 3, thorough 4) over the bytes {a, C3, A9, E2, 82, FF, C0, ED, A0, 80} (valid 2-byte sequence, truncated 3-byte sequence, overlong lead, surrogate lead, stray continuation); AllowInvalidUTF8 on/off; plus a literal join family (every ordered pair of 10 literals holding whole or partial multi-byte sequences, adjacent or separated by an inlined rule, generated with -optimize-grammar, AllowInvalidUTF8, inputs over 7 bytes up to 4: match and matched bytes against the bytewise reference); plus left-recursive rules E <- E tail / 'a' followed by .* (generated with -support-left-recursion, with and without -optimize-parser) where the invalid byte is first met inside a discarded growth iteration. plus table hits in front of an invalid byte (a rule evaluated twice at one offset by 3 templates x 3 rule bodies, followed by a matcher that consumes the next rune; default options and Memoize, AllowInvalidUTF8 on/off). An independent RFC 3629 decoder gives (rune,width) per offset; the reference matches over those and logs every offset advanced onto. Checked: value/text are the original bytes and offsets count bytes (exact value comparison), with the option off the set of positions carrying an 'invalid encoding' error equals the set of invalid bytes advanced onto, with it on there is none. Non-trivial = the parser advanced onto at least one invalid byte. Plus the cross family (cross.go, 16 flag sets, 14 inputs with invalid bytes) and call histories (every ordered pair of calls over 5 inputs x {default, AllowInvalidUTF8, the option given twice, the option preceded by its opposite, ParseReader}: the second call returns what it returns alone).",
 		Assumptions: []string{"E1 loader", "own RFC 3629 decoder in engine/peg"},
 		Run:         runC17,
 	})
@@ -178,6 +178,33 @@ func runC17(c *ShardCtx) {
 					{Name: "S", Expr: peg.Action(100, peg.Seq(peg.Label("v", peg.Ref("E")), peg.Label("r", rest.Clone())), "v", "r")},
 					{Name: "E", Expr: peg.Choice(peg.Seq(peg.Ref("E"), tail.Clone()), lit("a"))}}}
 				runGrammar(c, g, &lrFam)
+			}
+		}
+	}
+	// table hits in front of an invalid byte: a rule H evaluated twice at one offset (first alternative
+	// fails after it, lookahead, loop), followed by a matcher that consumes the NEXT rune; with
+	// Memoize(true) the second evaluation is answered from the table, and with -support-left-recursion
+	// a leader's result always is - the position restored by a hit must carry the rune and the width
+	// of the byte that follows (1 for an invalid byte)
+	{
+		lit := peg.Lit
+		hs := []func() *peg.Expr{func() *peg.Expr { return peg.Plus(lit("a")) }, func() *peg.Expr { return peg.Seq(lit("a"), peg.Opt(lit("a"))) }, func() *peg.Expr { return peg.Choice(lit("aa"), lit("a")) }}
+		tops := []func() *peg.Expr{
+			func() *peg.Expr { return peg.Choice(peg.Seq(peg.Ref("H"), lit("x"), peg.Star(peg.Any())), peg.Seq(peg.Label("h", peg.Ref("H")), peg.Label("r", peg.Star(peg.Any())))) },
+			func() *peg.Expr { return peg.Seq(peg.And(peg.Ref("H")), peg.Ref("H"), peg.Cls(true, false, "a"), peg.Star(peg.Any())) },
+			func() *peg.Expr { return peg.Seq(peg.Star(peg.Choice(peg.Seq(peg.Ref("H"), lit("x")), peg.Seq(peg.Ref("H"), peg.Cls(false, false, "\ufffd", "x")))), peg.Star(peg.Any())) },
+		}
+		mFam := *fam
+		mFam.opts = []rtapi.RunOpts{{MaxExpr: 600}, {MaxExpr: 600, AllowInvalid: true}, {MaxExpr: 600, Memoize: true}, {MaxExpr: 600, Memoize: true, AllowInvalid: true}}
+		mFam.inputs = peg.Inputs([]string{"a", "x", "\xff", "\xc3", "\xa9", "\x80"}, l+1)
+		for _, h := range hs {
+			for _, t := range tops {
+				idx++
+				if !c.Mine(idx) {
+					continue
+				}
+				g := &peg.Grammar{Rules: []*peg.Rule{{Name: "S", Expr: peg.Action(100, peg.Label("v", t()), "v")}, {Name: "H", Expr: h()}}}
+				runGrammar(c, g, &mFam)
 			}
 		}
 	}
